@@ -11,7 +11,7 @@ import io
 import re
 import sys
 
-from vlib.build import build, children_of, descendants_of, shape_str, shapes_upto
+from vlib.build import build, children_of, descendants_of, max_siblings, shape_str, shapes_upto
 
 ID = "C17"
 FUNCTIONS = [
@@ -33,15 +33,17 @@ _VENV_SP = "/venv/lib/python3.12/site-packages"
 
 
 def BOUNDS(tier):
-    n = 3 if tier == "quick" else 4
+    n = 4 if tier == "quick" else 5
     return {"max_nodes": n, "formats": ["dot", "mermaid", "rdf"], "classes": ["Tree", "TypedTree"], "start": "tree and every node", "unique_nodes": [True, False], "add_root": [True, False]}
 
 
 def shards(tier):
-    n = 3 if tier == "quick" else 4
+    n = 4 if tier == "quick" else 5
     out = []
     for typed in (False, True):
         for sh in shapes_upto(n if not typed else n - 1, 1):
+            if max_siblings(sh) > len(POOL):
+                continue  # not constructible: siblings need distinct names
             out.append({"name": "export-%s-%s" % ("typed" if typed else "plain", shape_str(sh)), "shape": list(sh), "typed": typed})
     return out
 
